@@ -1,4 +1,5 @@
 import Poly.Proofs.Native
+import Poly.Proofs.NativeFuel
 /-!
 # C15 — Transaction execution is atomic
 
@@ -84,6 +85,13 @@ theorem block_result_fn (txs : List Tx) :
 theorem failed_contribute_nothing (txs : List Tx) (r : TxResult)
     (hr : r ∈ (execBlock leafHash reg env txs).notify) (hf : r.ok = false) : r.cross = [] ∧ r.notify = [] :=
   execTxs_failed_cross leafHash reg env txs _ r hr hf
+
+/-- The recursion fuel of the model's nested `Invoke` is not a bound on what is modelled: the context stack refuses the
+1026th frame, so the fuel used by `execTx` never runs out — any larger amount gives the same final state and result
+for every registry and every starting state (the model-only outcome `diverge` is an artefact that is never decisive). -/
+theorem model_fuel_sufficient (s : Svc) (j : Nat) :
+    invokeF leafHash reg fuel s = invokeF leafHash reg (fuel + j) s :=
+  fuel_sufficient leafHash reg s j
 
 /-! ### The hypotheses are satisfiable, and the one caveat is real -/
 
